@@ -286,14 +286,32 @@ func (e *arityEngine) stmt(s ast.Stmt) (open, done counts) {
 	case *ast.ForStmt:
 		// constant-trip loops: for j := 0; j < N; j++
 		if x.Init != nil && x.Cond != nil && x.Post != nil {
-			if be, ok := x.Cond.(*ast.BinaryExpr); ok && be.Op == token.LSS {
-				if n, ok := constInt(e.p.Bebop().TypesInfo, be.Y); ok {
-					bo, _ := e.seq(x.Body.List)
-					total := single(0)
-					for i := 0; i < n; i++ {
-						total = total.plus(bo)
+			if be, ok := x.Cond.(*ast.BinaryExpr); ok && (be.Op == token.LSS || be.Op == token.LEQ) {
+				info := e.p.Bebop().TypesInfo
+				if n, ok := constInt(info, be.Y); ok {
+					// the counter's start: j := K (a constant), stepping by one
+					start, startOK := 0, false
+					if as, isA := x.Init.(*ast.AssignStmt); isA && len(as.Lhs) == 1 && len(as.Rhs) == 1 {
+						if k, isC := constInt(info, as.Rhs[0]); isC && wire.Canon(as.Lhs[0]) == wire.Canon(be.X) {
+							start, startOK = k, true
+						}
 					}
-					return total, none()
+					_, stepsByOne := x.Post.(*ast.IncDecStmt)
+					if startOK && stepsByOne {
+						trips := n - start
+						if be.Op == token.LEQ {
+							trips++
+						}
+						if trips < 0 {
+							trips = 0
+						}
+						bo, _ := e.seq(x.Body.List)
+						total := single(0)
+						for i := 0; i < trips; i++ {
+							total = total.plus(bo)
+						}
+						return total, none()
+					}
 				}
 			}
 		}
@@ -454,6 +472,33 @@ func checkC16(c *core.Ctx) {
 		}
 		return top == nil
 	})
+	// functions and methods of format.go that write (directly or through one another)
+	writers := map[*ast.FuncDecl]bool{}
+	for changed := true; changed; {
+		changed = false
+		for _, d := range funcsOfFiles(p, pkg, "format.go") {
+			if writers[d] {
+				continue
+			}
+			ast.Inspect(d.Body, func(n ast.Node) bool {
+				call, ok := n.(*ast.CallExpr)
+				if !ok {
+					return true
+				}
+				if sel, ok := call.Fun.(*ast.SelectorExpr); ok && (sel.Sel.Name == "SafeWrite" || sel.Sel.Name == "Write") {
+					writers[d] = true
+					changed = true
+				}
+				if cal := load.Callee(info, call); cal != nil {
+					if cd := p.Decl(cal); cd != nil && writers[cd] && !writers[d] {
+						writers[d] = true
+						changed = true
+					}
+				}
+				return true
+			})
+		}
+	}
 	if top != nil {
 		for _, cc := range top.Body.List {
 			cl := cc.(*ast.CaseClause)
@@ -464,6 +509,15 @@ func checkC16(c *core.Ctx) {
 				case *ast.CallExpr:
 					if sel, ok := x.Fun.(*ast.SelectorExpr); ok && (sel.Sel.Name == "SafeWrite" || sel.Sel.Name == "Write") {
 						writes = true
+					}
+					if cal := load.Callee(info, x); cal != nil {
+						if cd := p.Decl(cal); cd != nil && cd != ff && writers[cd] {
+							// a helper of format.go that writes — but not one of the
+							// per-construct formatters, which return bytes
+							if sig, ok := cal.Type().(*types.Signature); ok && sig.Results().Len() == 0 {
+								writes = true
+							}
+						}
 					}
 				case *ast.AssignStmt:
 					if x.Tok == token.ASSIGN && len(x.Lhs) == 1 && len(x.Rhs) == 1 {
@@ -485,6 +539,43 @@ func checkC16(c *core.Ctx) {
 			}
 		}
 	}
+	// a kind may also be dealt with ahead of the switch: if t.kind == K { raise
+	// a marker (or write); continue }
+	ast.Inspect(ff.Body, func(n ast.Node) bool {
+		ifs, ok := n.(*ast.IfStmt)
+		if !ok || top == nil || ifs.Pos() > top.Pos() {
+			return true
+		}
+		be, ok := ast.Unparen(ifs.Cond).(*ast.BinaryExpr)
+		if !ok || be.Op != token.EQL {
+			return true
+		}
+		sel, ok := ast.Unparen(be.X).(*ast.SelectorExpr)
+		kid, ok2 := ast.Unparen(be.Y).(*ast.Ident)
+		if !ok || !ok2 || sel.Sel.Name != "kind" || !strings.HasPrefix(kid.Name, "tokenKind") {
+			return true
+		}
+		marks := false
+		ast.Inspect(ifs.Body, func(m ast.Node) bool {
+			switch x := m.(type) {
+			case *ast.AssignStmt:
+				if x.Tok == token.ASSIGN && len(x.Rhs) == 1 {
+					if tv := info.Types[x.Rhs[0]]; tv.Value != nil && tv.Value.String() == "true" {
+						marks = true
+					}
+				}
+			case *ast.CallExpr:
+				if sel, ok := x.Fun.(*ast.SelectorExpr); ok && (sel.Sel.Name == "SafeWrite" || sel.Sel.Name == "Write") {
+					marks = true
+				}
+			}
+			return true
+		})
+		if marks {
+			fmtKinds[kid.Name] = true
+		}
+		return true
+	})
 	var ks []string
 	for k := range recordKinds {
 		ks = append(ks, k)
@@ -1288,8 +1379,10 @@ func tokensVerbatim(c *core.Ctx, p *load.Prog, rule string) {
 	// the functions of format.go are all scanned by this rule: handing a token
 	// to one of them is not a way out of it
 	local := map[string]bool{}
+	localDecl := map[*ast.FuncDecl]bool{}
 	for _, fd := range funcsOfFiles(p, pkg, "format.go") {
 		local[fd.Name.Name] = true
+		localDecl[fd] = true
 	}
 	for _, fd := range funcsOfFiles(p, pkg, "format.go") {
 		// local names for a token's text (x := t.concrete): cutting a prefix off
@@ -1335,6 +1428,12 @@ func tokensVerbatim(c *core.Ctx, p *load.Prog, rule string) {
 				uses++
 				fn := wire.Canon(x.Fun)
 				okCall := fn == "append" || strings.HasSuffix(fn, ".SafeWrite") || strings.HasSuffix(fn, ".Write") || local[fn]
+				if cal := load.Callee(info, x); cal != nil && !okCall {
+					// a function or method declared in format.go: scanned like the rest
+					if d := p.Decl(cal); d != nil && localDecl[d] {
+						okCall = true
+					}
+				}
 				if sel, isSel := x.Fun.(*ast.SelectorExpr); isSel && !okCall {
 					if s2, found := info.Selections[sel]; found && s2.Kind() == types.FieldVal {
 						okCall = true // a function stored in a field: same argument as below
